@@ -4,7 +4,7 @@
    (the errno decides), on a foreign reply (failure), and outside it (success only with an acknowledgement). *)
 From Coq Require Import List Ascii NArith ZArith Bool Lia.
 Import ListNotations.
-Require Import Mach AuditConsts MsgTypes AuditClient Uapi ChkClient RuleWire ClientProofs ClientAckProofs.
+Require Import Mach AuditConsts MsgTypes AuditClient Uapi ChkClient RuleWire ClientProofs ClientAckProofs StatusProofs.
 Open Scope N_scope.
 
 (* getReply whose first receive has k attempts left *)
@@ -190,4 +190,63 @@ Proof.
     destruct (Z.eqb e 0).
     + exact (IH _ _ _ _ H).
     + injection H as <- <- <-. repeat split.
+Qed.
+
+(* ---------- GetStatus ---------- *)
+Lemma listN_eqb_refl l : listN_eqb l l = true.
+Proof. induction l as [|x l IH]; [reflexivity|]. cbn [listN_eqb]. rewrite N.eqb_refl. exact IH. Qed.
+
+Lemma spec_ack_foreign q script : spec_ack q script = VForeign -> exists r, reply q script = (inl ESeq, r).
+Proof.
+  unfold spec_ack. pose proof (spec_reply q script) as HS.
+  destruct (spec_next q script 0) as [ty d rest'| |]; try discriminate.
+  - destruct (ty =? UAPI_NLMSG_ERROR); [|discriminate]. destruct d as [|a [|b [|c [|x d']]]]; discriminate.
+  - intros _. exact HS.
+Qed.
+
+Definition get_status_result (q : N) (script : list revent) : cres :=
+  let '(r, rest) := reply q script in
+  match check_ack r with
+  | Some e => RFail e
+  | None =>
+      let '(r2, _) := reply q rest in
+      match r2 with
+      | inl e => RFail e
+      | inr (ty, _, d) => if ty =? AuditGet then match status_from_wire d with Some ws => RStatus ws | None => RFail EEOF end
+                          else RFail EReplyType
+      end
+  end.
+
+Lemma get_status_is s w : no_fault w -> result_of (snd (cstep s w OGetStatus)) = get_status_result (next_seq s) (rscript w).
+Proof.
+  intros Hn. cbn [cstep]. unfold get_status, get_status_result, do_send, no_fault, next_seq in *.
+  destruct (sfaults w) as [|f fs]; cbn [rscript].
+  - destruct (reply ((nseq s + 1) mod 2 ^ 32) (rscript w)) as [r rest]. destruct (check_ack r); [reflexivity|].
+    destruct (reply ((nseq s + 1) mod 2 ^ 32) rest) as [r2 rest']. reflexivity.
+  - destruct f as [e|]; [destruct Hn|].
+    destruct (reply ((nseq s + 1) mod 2 ^ 32) (rscript w)) as [r rest]. destruct (check_ack r); [reflexivity|].
+    destruct (reply ((nseq s + 1) mod 2 ^ 32) rest) as [r2 rest']. reflexivity.
+Qed.
+
+Theorem chk_c08_accepts_get_status s w : no_fault w ->
+  chk_c08_call OGetStatus (next_seq s) (rscript w) (result_of (snd (cstep s w OGetStatus))) = true.
+Proof.
+  intros Hn. rewrite (get_status_is s w Hn). set (q := next_seq s). set (script := rscript w).
+  cbn [chk_c08_call]. unfold get_status_result.
+  destruct (spec_ack q script) as [e rest0| |] eqn:Ea.
+  - destruct (spec_ack_reply _ _ _ _ Ea) as (ty & d & Hr & Hc). rewrite Hr, Hc.
+    destruct (Z.eqb e 0); [|apply cres_eqb_refl_fail].
+    pose proof (spec_reply q rest0) as HS.
+    destruct (spec_next q rest0 0) as [ty2 d2 rest2| |]; [| |reflexivity].
+    + rewrite HS. change AuditGet with UAPI_AUDIT_GET.
+      destruct (ty2 =? UAPI_AUDIT_GET); cbn [andb]; [|reflexivity].
+      destruct (32 <=? N.of_nat (length d2)) eqn:E32; [|reflexivity].
+      rewrite StatusProofs.from_wire_spec. change UAPI_MIN_AUDIT_STATUS with 32.
+      apply N.leb_le in E32. destruct (N.ltb_spec (N.of_nat (length d2)) 32) as [Hlt|_]; [lia|].
+      cbn [cres_eqb]. apply listN_eqb_refl.
+    + destruct HS as [r' HS]. rewrite HS. reflexivity.
+  - destruct (spec_ack_foreign _ _ Ea) as [r' Hr]. rewrite Hr. reflexivity.
+  - destruct (reply q script) as [r rest] eqn:Hr. unfold unacked_must_fail.
+    destruct (check_ack r) as [x|] eqn:Ec; [apply orb_true_r|].
+    rewrite (success_only_if_acked _ _ _ _ Hr Ec). reflexivity.
 Qed.
